@@ -1,9 +1,11 @@
 (* C16 — typed headers survive write/parse and are found under any capitalisation (partial:
    Content-Length over its whole range, the enumerated headers, Host, and the case-insensitive
    first-occurrence-wins lookup are theorems; Cache-Control directive lists, Content-Type (see C18),
-   Authorization (see C20) and Date are decided by the correspondence check). *)
-From Coq Require Import Ascii String List NArith Arith.
-Require Import Bytes NumParse NetLemmas HeaderModel HeaderLemmas.
+   Authorization (see C20) are decided by the correspondence check; Date: what FullDate::write produces is
+   read back to the same second for every second of 1678..2261 - C16_date_roundtrip, with a strict reader of the
+   canonical text, the leniency of date::from_stream being outside the model). *)
+From Coq Require Import Ascii String List NArith ZArith Arith.
+Require Import Bytes NumParse NetLemmas HeaderModel HeaderLemmas DateModel DateLemmas.
 Import ListNotations.
 
 Theorem C16_content_length_roundtrip : forall n, (n <= 18446744073709551615)%N -> cl_parse (cl_write n) = n.
@@ -47,3 +49,38 @@ Print Assumptions C16_server_roundtrip.
 Theorem C16_cache_control_roundtrip : forall ds, Forall ok_dir ds -> cc_parse_top (cc_write ds) = Some ds.
 Proof. exact cc_roundtrip. Qed.
 Print Assumptions C16_cache_control_roundtrip.
+
+(* Date: for every whole second of the years 1678..2261 (the years parse_fields accepts), the RFC 1123 text
+   FullDate::write produces is read back as the same second, so writing again gives identical text; different seconds
+   have different texts.  The calendar conversion of date.h (days <-> year, month, day) is the identity on all the
+   213301 days of that range and yields real dates (C16_date_calendar).  Finite parts (213301 days, 86400 seconds of a
+   day) are decided over the WHOLE range by evaluation in the kernel. *)
+Local Open Scope Z_scope.
+Theorem C16_date_roundtrip : forall s, date_lo <= s <= date_hi -> date_parse (date_write s) = Some s.
+Proof. exact date_roundtrip. Qed.
+Print Assumptions C16_date_roundtrip.
+
+Theorem C16_date_write_stable : forall s, date_lo <= s <= date_hi ->
+  exists s', date_parse (date_write s) = Some s' /\ date_write s' = date_write s.
+Proof. exact date_write_stable. Qed.
+Print Assumptions C16_date_write_stable.
+
+Theorem C16_date_write_injective : forall s t, date_lo <= s <= date_hi -> date_lo <= t <= date_hi ->
+  date_write s = date_write t -> s = t.
+Proof. exact date_write_injective. Qed.
+Print Assumptions C16_date_write_injective.
+
+Theorem C16_date_calendar : forall d, day_lo <= d < day_lo + day_count ->
+  let '(y, m, dd) := civil_from_days d in
+  days_from_civil y m dd = d /\ 1 <= m <= 12 /\ 1 <= dd <= last_day y m /\ 1678 <= y <= 2261.
+Proof. exact civil_roundtrip. Qed.
+Print Assumptions C16_date_calendar.
+
+(* non-vacuity and the text itself: RFC 7231's example instant, the two ends of the range, a leap day *)
+Example C16_ex_date :
+  map (fun s => (date_write s, date_parse (date_write s))) [784111777; date_lo; date_hi; 951782400]
+  = [(list_of_string "Sun, 06 Nov 1994 08:49:37.000000000 UTC", Some 784111777);
+     (list_of_string "Sat, 01 Jan 1678 00:00:00.000000000 UTC", Some date_lo);
+     (list_of_string "Tue, 31 Dec 2261 23:59:59.000000000 UTC", Some date_hi);
+     (list_of_string "Tue, 29 Feb 2000 00:00:00.000000000 UTC", Some 951782400)].
+Proof. vm_compute. reflexivity. Qed.
